@@ -1,6 +1,7 @@
 use crate::util::Tier;
 pub mod c06;
 pub mod c07;
+pub mod c08;
 pub mod c09;
 pub mod hist;
 pub mod c10;
@@ -27,6 +28,7 @@ pub fn run(prop: &str, tier: Tier, seed: u64) -> i32 {
         "C18" => c18::run(tier, seed),
         "C06" => c06::run(tier, seed),
         "C07" => c07::run(tier, seed),
+        "C08" => c08::run(tier, seed),
         "C09" => c09::run(tier, seed),
         "C10" => c10::run(tier, seed),
         "C11" => c11::run(tier, seed),
@@ -67,6 +69,7 @@ pub fn replay(file: &str) -> i32 {
         ("C18", "prm") => c18::replay(rp, file),
         ("C06", "c06") => c06::replay(rp, file),
         ("C07", "history") => c07::replay(rp, file),
+        ("C08", _) => c08::replay(rp, file),
         ("C15", "steps") => steps::replay(steps::StepProp::C15, rp, file),
         ("C16", "steps") => steps::replay(steps::StepProp::C16, rp, file),
         ("C17", "steps") => steps::replay(steps::StepProp::C17, rp, file),
